@@ -17,8 +17,28 @@ class FrameError(Exception):
     pass
 
 
+def deflate(payload, level=6, zmode='finished'):
+    """zlib streams as different peers produce them: 'finished' (one-shot
+    compress), 'sync-flush' (a deflater that is flushed per packet and never
+    finished: no final block, no Adler-32 trailer - what an inflater that is
+    asked for exactly the announced number of bytes accepts), 'blocks' (a full
+    flush in the middle, then finished), 'stored' (level 0)."""
+    if zmode == 'finished':
+        return zlib.compress(payload, level)
+    if zmode == 'stored':
+        return zlib.compress(payload, 0)
+    c = zlib.compressobj(level)
+    if zmode == 'sync-flush':
+        return c.compress(payload) + c.flush(zlib.Z_SYNC_FLUSH)
+    if zmode == 'blocks':
+        half = len(payload) // 2
+        return c.compress(payload[:half]) + c.flush(zlib.Z_FULL_FLUSH) + \
+            c.compress(payload[half:]) + c.flush()
+    raise ValueError(zmode)
+
+
 def frame(packet_id, data, threshold=None, compress_at=None, level=6,
-          pad=0):
+          pad=0, zmode='finished'):
     """Encode one packet.  threshold None = uncompressed format.
     compress_at: payload size from which the body is compressed (defaults to
     the vanilla rule size >= threshold; never compress when threshold < 0).
@@ -32,7 +52,7 @@ def frame(packet_id, data, threshold=None, compress_at=None, level=6,
     if compress_at is None:
         compress_at = threshold
     if threshold >= 0 and len(payload) >= compress_at:
-        body = enc(len(payload)) + zlib.compress(payload, level)
+        body = enc(len(payload)) + deflate(payload, level, zmode)
     else:
         body = varint.encode(0) + payload
     return enc(len(body)) + body
